@@ -130,6 +130,7 @@ def lookup(eng, ver, k):
 def note_present(eng, ver, k, v):
     """(k, v) is known to be an item of ver: instantiate every all-fold known on ver"""
     ver.picked.append((k, v))
+    maxabs_note(eng, ver.ksort, k)
     for name, val in list(ver.cache.items()):
         if name not in FOLDS:
             continue
@@ -154,6 +155,8 @@ def fold(eng, ver, name):
         r = z3.Const("%s_%d!%d" % (name, ver.n, eng.nfresh), F.sort)
         if name == "size":
             eng.facts.add(r >= 0)
+            # a dict without items has no key (python truthiness / len of a dict is about its key set)
+            eng.facts.add(z3.Implies(r == 0, ver.dom == z3.K(ver.ksort, z3.BoolVal(False))))
         if name == "absnc":
             eng.facts.add(r >= 0)
         if name == "aden" and getattr(eng.facts, "origin", False) and ver.ksort == T.Key:
@@ -248,6 +251,62 @@ def assert_same(eng, va, vb, cond):
         if name.startswith("within@"):
             continue
         eng.facts.add(z3.Implies(cond, fold(eng, va, name) == fold(eng, vb, name)))
+
+
+def _abs(v):
+    v = _real(v)
+    return z3.If(v < 0, -v, v)
+
+
+def maxabs_of(eng, ver):
+    """M = max(0, max of |v| over the items of the dict version).  Facts (all quantifier-free): M >= 0; M == 0 for
+    an empty dict; a non-empty dict has an item kw with |v| == M (skolem witness); |v| <= M for every item -
+    instantiated at the witness keys of every dict version of the path for which the maximum was asked (both
+    directions), and at every item the path knows to be present."""
+    if "maxabs" in ver.cache:
+        return ver.cache["maxabs"]
+    eng.nfresh += 1
+    M = z3.Real("maxabs_%d!%d" % (ver.n, eng.nfresh))
+    kw = z3.Const("maxabs_at_%d!%d" % (ver.n, eng.nfresh), ver.ksort)
+    if ver.ksort == T.Key:
+        eng.facts.key(kw)
+    sz = fold(eng, ver, "size")
+    eng.facts.add(M >= 0)
+    eng.facts.add(z3.Implies(sz == 0, M == 0))
+    eng.facts.add(z3.Implies(sz > 0, z3.And(z3.Select(ver.dom, kw), _abs(z3.Select(ver.val, kw)) == M)))
+    ver.cache["maxabs"] = M
+    ver.maxabs_at = kw
+    reg = getattr(eng, "maxabs_reg", None)
+    if reg is None:
+        reg = eng.maxabs_reg = {"vers": [], "keys": []}
+    reg["vers"].append((ver, M, sz))
+    reg["keys"].append((ver.ksort, kw))
+    for (k, v) in ver.picked:
+        reg["keys"].append((ver.ksort, k))
+    done = reg.setdefault("done", set())
+    for (vr, Mv, szv) in reg["vers"]:
+        for (ks, w) in reg["keys"]:
+            key = (vr.n, w.get_id())
+            if ks != vr.ksort or key in done:
+                continue
+            done.add(key)
+            eng.facts.add(z3.Implies(z3.Select(vr.dom, w), z3.And(szv >= 1, _abs(z3.Select(vr.val, w)) <= Mv)))
+    return M
+
+
+def maxabs_note(eng, ksort, k):
+    """a key the path is interested in (loop item, quantifier witness): instantiate the bound of every tracked maximum"""
+    reg = getattr(eng, "maxabs_reg", None)
+    if reg is None:
+        return
+    reg["keys"].append((ksort, k))
+    done = reg.setdefault("done", set())
+    for (vr, Mv, szv) in reg["vers"]:
+        key = (vr.n, k.get_id())
+        if ksort != vr.ksort or key in done:
+            continue
+        done.add(key)
+        eng.facts.add(z3.Implies(z3.Select(vr.dom, k), z3.And(szv >= 1, _abs(z3.Select(vr.val, k)) <= Mv)))
 
 
 def ancbelow_fold(eng, n):
